@@ -13,8 +13,11 @@ class _Crash(BaseException):
 
 
 class _File:
-    def __init__(self, path, mode, ctl):
+    def __init__(self, path, mode, ctl, fd=None):
         self.ctl = ctl
+        if fd is not None:                                          # wraps a descriptor the code opened itself (os.open + os.fdopen)
+            self.fd = fd
+            return
         ctl.tick("open:" + path)                                   # crash before the file is even created/truncated
         self.fd = os.open(path, os.O_WRONLY | os.O_CREAT | os.O_TRUNC, 0o644)
         ctl.tick("opened:" + path)
@@ -48,8 +51,8 @@ class _BufferedFile(_File):
     when it fills up, on flush() and on close() -- a crash loses whatever is still buffered"""
     BUFSIZE = 8192
 
-    def __init__(self, path, mode, ctl):
-        super().__init__(path, mode, ctl)
+    def __init__(self, path, mode, ctl, fd=None):
+        super().__init__(path, mode, ctl, fd)
         self.buf = b""
 
     def write(self, s):
@@ -75,8 +78,25 @@ class _BufferedFile(_File):
 
 
 class _Os:
-    def __init__(self, ctl):
+    def __init__(self, ctl, cls=None):
         self._ctl = ctl
+        self._cls = cls or _File
+
+    def open(self, path, flags, mode=0o777, **kw):
+        # the code opens the file itself: its OWN flags decide whether an existing file is truncated
+        self._ctl.tick("os.open:" + str(path))
+        fd = os.open(path, flags, mode, **kw)
+        self._ctl.tick("os.opened:" + str(path))
+        return fd
+
+    def fdopen(self, fd, mode="r", *a, **kw):
+        if "w" in mode or "a" in mode or "+" in mode:
+            return self._cls(None, mode, self._ctl, fd=fd)
+        return os.fdopen(fd, mode, *a, **kw)
+
+    def write(self, fd, data):
+        self._ctl.tick("os.write")
+        return os.write(fd, data)
 
     def replace(self, a, b):
         self._ctl.tick("before_replace")
@@ -110,7 +130,7 @@ def crash_points(module, action, inspect, max_points=2000, buffered=False):
                 real_open = builtins.open
                 cls = _BufferedFile if buffered else _File
                 module.open = lambda p, m="r", *a, **kw: cls(p, m, ctl) if ("w" in m or "a" in m) else real_open(p, m, *a, **kw)
-                module.os = _Os(ctl)
+                module.os = _Os(ctl, cls)
                 action()
                 os._exit(0)
             except BaseException:
